@@ -9,12 +9,46 @@ import (
 // the batch boundary (finding F-C15); the same stream is the witness of
 // C15_batch_invariance_full_refuted in theories/C15/Property.v.
 func witnessCase() Case {
+	n := 0
 	rec := func(u string) Rec {
-		return Rec{Method: "GET", URL: u, Status: 200, Dur: 10, TDur: 12, TS: t0, Icpt: "py/1.0"}
+		n++
+		return Rec{Method: "GET", URL: u, Status: 200, Dur: 10 * n, TDur: 10*n + 2, TS: t0 + int64(300*n), Icpt: "py/1.0"}
 	}
+	// split threshold 2: p/a p/b p/c converge below p; q/a keeps the constant a;
+	// r/z converges below h.com and merges p and q.  Unsplit, p/a is looked up
+	// in the final tree and finds the constant a; split after three records, it
+	// was already filed under h.com/p/{_param_1} and is re-keyed to
+	// h.com/{_param_1}/{_param_2}.
 	return Case{Threshold: 2,
 		Records: []Rec{rec("h.com/p/a"), rec("h.com/p/b"), rec("h.com/p/c"), rec("h.com/q/a"), rec("h.com/r/z")},
 		Runs:    []RunObs{{Cuts: []int{}, Restart: []bool{}}, {Cuts: []int{3}, Restart: []bool{false}}}}
+}
+
+// corpusCases: minimised streams that run right after the witness — the two
+// defects repaired by patches/C15 and the boundaries of the persisted format.
+func corpusCases() []Case {
+	rec := func(m, u string, st int, ts int64, tag string) Rec {
+		return Rec{Method: m, URL: u, Status: st, Dur: 20, TDur: 25, TS: t0 + ts, Cons: tag, Icpt: "py/1.0"}
+	}
+	two := func(n int) []RunObs {
+		runs := []RunObs{{Cuts: []int{}, Restart: []bool{}}}
+		for c := 1; c < n; c++ {
+			runs = append(runs, RunObs{Cuts: []int{c}, Restart: []bool{false}}, RunObs{Cuts: []int{c}, Restart: []bool{true}})
+		}
+		return append(runs, RunObs{Cuts: []int{n}, Restart: []bool{true}})
+	}
+	return []Case{
+		// an empty path part: the tree refuses the URL (F-C15c: the whole batch used to be dropped)
+		{Threshold: 2, Records: []Rec{rec("GET", "h.com/a", 200, 1, ""), rec("GET", "h.com//b", 200, 2, ""), rec("GET", "h.com/c", 404, 3, "")}, Runs: two(3)},
+		// the persisted-key delimiter inside URLs (F-C15d: both used to come back as h.com/x, one lost)
+		{Threshold: 3, Records: []Rec{rec("GET", "h.com/x:::1", 200, 1, ""), rec("GET", "h.com/x:::2", 500, 1002, "t")}, Runs: two(2)},
+		// same URL under two methods and two consumers, statuses mixed, stamps across second boundaries
+		{Threshold: 1, Records: []Rec{rec("GET", "h.com/a", 200, 999, "t1"), rec("POST", "h.com/a", 500, 1000, "t2"),
+			rec("GET", "h.com/b", 200, 1001, "t1"), rec("GET", "h.com/a", 404, 2999, "")}, Runs: two(4)},
+		// only internal records; then one real one
+		{Threshold: 2, Records: []Rec{{Method: "GET", URL: "h.com/i", Status: 200, TS: t0, Internal: true},
+			rec("GET", "h.com/a", 200, 5, "")}, Runs: two(2)},
+	}
 }
 
 // findWitness (C15_FIND_WITNESS=1): development aid, checks that the witness is
@@ -28,6 +62,7 @@ func findWitness() {
 		if i == 0 {
 			first = string(b)
 			fmt.Println(first)
+			fmt.Println(coq(&k))
 		} else if string(b) != first {
 			fmt.Println("NONDETERMINISTIC", string(b))
 			return
